@@ -69,6 +69,9 @@ CLAIMED.update({
  "C07": C("differential / metamorphic property-based testing: one generated abstract graph in up to 12 encodings (types, index widths, insertion orders, vacancies, relabelings); ~30 algorithms; answers translated to labels and compared",
           "Every algorithm and walker is run on every encoding of the same abstract graph that satisfies its trait bounds; canonicalised answers must agree (equal where unique, equally valid/optimal otherwise) and a panic on one encoding while another succeeds is a violation.",
           "the encoders in agraph.rs and the canonicalisation in props/c07.rs; correctness of the common answer is C08-C16/C20's job", "DESIGN.md section 5, C07"),
+ "C17": C("property-based testing under two build profiles: round-trip oracle (full C01/C02 observation of the deserialised graph equals the original's) + structured JSON-value mutations and byte-level bincode mutations judged by an accept-or-reject oracle (accepted graphs must pass the full self-consistency observation and a model-checked follow-up script); libFuzzer campaign on the same oracle in the thorough tier",
+          "Round trips of Graph / StableGraph (with node and edge vacancies, four index widths, near the u8 limit) / GraphMap through serde_json and bincode, across types and index widths; hostile JSON and bincode input must be rejected or yield a fully consistent graph, never a panic.",
+          "the observation machinery of gmodel.rs, serde_json and bincode", "DESIGN.md section 5, C17"),
 })
 PLANNED = {}
 
